@@ -306,6 +306,9 @@ def gen_config(cs, tier='quick', force=None):
     c['pre_same_out'] = cs.choose(2, 'pre_same_out') == 1      # the earlier run wrote to the very same result file
     # the base input file had OTHER content during the earlier run (same path, edited in between)
     c['pre_other_base'] = bool(c['pre_run']) and cs.choose(3, 'pre_other_base') == 2
+    # the earlier run tracked another OUTPUT list (reversed, and one fewer if there are several): its rows and summary have
+    # another shape than those of the run under test
+    c['pre_other_outputs'] = bool(c['pre_run']) and cs.choose(3, 'pre_other_outputs') == 2
     c['settings_out'] = [0, 0, 0, 0, 0, 0, 1, 2][cs.choose(8, 'settings_out')]   # MC_OUTPUT_FILE line (1: alone, 2: plus another path on the command line)
     # sometimes a second, independent Monte-Carlo driver process runs at the same time on the same machine (same temp
     # directory, a base input file with the same name in another project directory, its own settings and result file)
@@ -504,7 +507,11 @@ def run_one(payload):
             if c.get('pre_run'):
                 stg0 = os.path.join(work, 'mc_settings_pre.txt')
                 with K._real['open'](stg0, 'w') as f0:
-                    f0.write(settings_text(dict(c, iterations=c['pre_run'])))
+                    c0 = dict(c, iterations=c['pre_run'])
+                    if c.get('pre_other_outputs'):
+                        o0 = list(reversed(c['outputs']))
+                        c0['outputs'] = o0[:-1] if len(o0) > 1 else o0
+                    f0.write(settings_text(c0))
                 if c.get('pre_other_base'):
                     with K._real['open'](inp, 'w') as f0:
                         f0.write(_other_base_text(c))
